@@ -27,6 +27,7 @@ type c18Case struct {
 	Inputs []gen.Seq `json:"inputs"` // N multiple of 8
 	Tasks  []c18Task `json:"tasks"`
 	Procs  int       `json:"gomaxprocs"`
+	Reps   int       `json:"reps,omitempty"` // each goroutine repeats its call this many times (0 = once): a long, oversubscribed concurrent phase
 }
 
 var scribbleSalt int
@@ -209,7 +210,15 @@ func checkC18(c c18Case) (Outcome, error) {
 		go func(i int, tk c18Task) {
 			defer wg.Done()
 			<-start
-			conc[i] = runTask(tk, data, bits)
+			for k := 0; k < max(1, c.Reps); k++ {
+				r := runTask(tk, data, bits)
+				if k == 0 || !equalResults(r, solo[i]) { // keep the first deviating result
+					conc[i] = r
+					if k > 0 {
+						return
+					}
+				}
+			}
 		}(i, tk)
 	}
 	close(start)
@@ -250,8 +259,23 @@ func genC18(t *rapid.T) c18Case {
 	if large && nt > 16 {
 		nt = 16
 	}
+	// half of the cases have a focus test that about half of the goroutines run (state shared between calls of one function:
+	// pools, scratch buffers, memo tables); the others mix all tests evenly
+	focus := -1
+	if rapid.Bool().Draw(t, "focused") {
+		focus = rapid.IntRange(0, 14).Draw(t, "focus_test")
+	}
+	if rapid.IntRange(0, 2).Draw(t, "repeat") == 0 { // more goroutines than processors, each calling repeatedly: preemption inside the calls
+		c.Reps = rapid.IntRange(2, 12).Draw(t, "reps")
+		if large {
+			c.Procs = 2
+		}
+	}
 	for i := 0; i < nt; i++ {
 		tk := c18Task{Test: rapid.IntRange(0, 17).Draw(t, "test"), Input: rapid.IntRange(0, ni-1).Draw(t, "input"), Bytes: rapid.Bool().Draw(t, "bytes")}
+		if focus >= 0 && rapid.Bool().Draw(t, "on_focus") {
+			tk.Test = focus
+		}
 		if large && (tk.Test == 12 || tk.Test >= 15) { // on large inputs: not the quadratic linear complexity and not the full rounds (cost)
 			tk.Test = rapid.SampledFrom([]int{0, 1, 2, 3, 4, 5, 6, 7, 8, 10, 11}).Draw(t, "cheap_test")
 		}
